@@ -37,6 +37,7 @@ M = [
  ('H19', 'C14', 'ciw/simulation.py', "        while self.current_time < max_simulation_time:\n", "        while self.current_time <= max_simulation_time:\n"),
  ('H20', 'C15', 'ciw/simulation.py', "                clss: copy.deepcopy(self.network.customer_classes[clss].service_distributions[node])\n", "                clss: self.network.customer_classes[clss].service_distributions[node]\n"),
  ('H22', 'C09', 'ciw/auxiliary.py', "    rdm_num = random.random()\n    i, p = 0, probs[0]\n", "    rdm_num = random.random() ** 1.5\n    i, p = 0, probs[0]\n"),
+ ('H23', 'C13', 'ciw/arrival_node.py', "            rnd_num = random()\n", "            rnd_num = random() ** 1.3\n"),
  ('H21', 'C16', 'ciw/simulation.py', "        next_active_node = self.find_next_active_node()\n        self.current_time = next_active_node.next_event_date\n\n        if progress_bar:\n            self.progress_bar = tqdm.tqdm(total=max_simulation_time)\n",
                                       "        next_active_node = self.find_next_active_node()\n        self.current_time = next_active_node.next_event_date\n        self.statetracker.timestamp()\n        for nd in self.transitive_nodes: nd.update_next_event_date()\n        next_active_node = self.find_next_active_node()\n\n        if progress_bar:\n            self.progress_bar = tqdm.tqdm(total=max_simulation_time)\n"),
 ]
